@@ -15,6 +15,7 @@ fn item_src(it: &Value, derive: &str) -> String {
         "false" => format!("{} = false", n),
         "str" => format!("{} = \"x::y\"", n),
         "rule" => format!("{} = \"camelCase\"", n),
+        "preds" => format!("{} = \"T: Clone, U: 'static\"", n),
         "path" => format!("{} = a::b", n),
         "closure" => format!("{} = |x| x", n),
         "words" => format!("{}(a, b)", n),
@@ -69,7 +70,9 @@ pub fn render(c: &Value, split: bool) -> String {
         "enum0" => "enum Demo {}".to_string(),
         "union" => "union Demo { a: u8, b: u16 }".to_string(),
         "enum" => {
-            let st = match c["v1style"].as_str().unwrap() { "unit" => "", "newtype" => "(u8)", "struct" => " { a: u8 }", "tuple0" => "()", "struct0" => " {}", _ => "(u8, u16)" };
+            // the field of a struct variant carries the f1 options
+            let vf = format!(" {{\n{}\na: u8 }}", f1);
+            let st = match c["v1style"].as_str().unwrap() { "unit" => "", "newtype" => "(u8)", "struct" => vf.as_str(), "tuple0" => "()", "struct0" => " {}", _ => "(u8, u16)" };
             format!("enum Demo {{\n{}\nV1{},\n{}\n}}", v1, st, if c["v2present"] == true { format!("{}\nV2,", v2) } else { String::new() })
         }
         s => panic!("shape {}", s),
@@ -161,6 +164,8 @@ pub fn positions(di: &syn::DeriveInput) -> Vec<((String, u64), Range)> {
             let el = format!("v{}", i + 1);
             items_of(&v.attrs, &el, &mut out);
             out.push(((el, 0), Range::of(syn::spanned::Spanned::span(v))));
+            // the first field of the first variant is element "f1"
+            if i == 0 { if let Some(f) = v.fields.iter().next() { items_of(&f.attrs, "f1", &mut out); out.push((("f1".into(), 0), Range::of(syn::spanned::Spanned::span(f)))); } }
         },
         _ => {}
     }
@@ -230,18 +235,18 @@ pub fn replay_one(c: &Value, idx: usize) -> (crate::erralg::Outcome, String, boo
 // ---------------------------------------------------------------------------------------------------
 // impl -> spec: random declarations longer than the exhaustive bounds, recorded for Trace_DeriveOptions.tla
 
-const FIELD_ALPHA: [(&str, &str); 23] = [
+const FIELD_ALPHA: [(&str, &str); 25] = [
     ("rename", "str"), ("rename", "word"), ("default", "word"), ("default", "path"), ("default", "words"), ("with", "path"), ("with", "closure"), ("with", "str"),
     ("skip", "word"), ("skip", "false"), ("skip", "str"), ("map", "str"), ("and_then", "path"), ("map", "closure"), ("multiple", "word"), ("multiple", "false"),
-    ("flatten", "word"), ("flatten", "true"), ("bogus", "word"), ("@bare", ""), ("@nv", ""), ("@lit", ""), ("@junk", ""),
+    ("flatten", "word"), ("flatten", "true"), ("flatten", "empty"), ("skip", "empty"), ("bogus", "word"), ("@bare", ""), ("@nv", ""), ("@lit", ""), ("@junk", ""),
 ];
 const VARIANT_ALPHA: [(&str, &str); 12] = [
     ("rename", "str"), ("rename", "true"), ("skip", "word"), ("skip", "false"), ("word", "word"), ("word", "false"), ("word", "str"), ("bogus", "str"), ("@bare", ""), ("@nv", ""), ("@lit", ""), ("@junk", ""),
 ];
-const CONT_ALPHA: [(&str, &str); 28] = [
+const CONT_ALPHA: [(&str, &str); 30] = [
     ("default", "word"), ("default", "words"), ("rename_all", "rule"), ("rename_all", "str"), ("map", "str"), ("and_then", "str"), ("allow_unknown_fields", "word"),
     ("allow_unknown_fields", "str"), ("attributes", "words"), ("attributes", "str"), ("forward_attrs", "word"), ("forward_attrs", "words"), ("from_ident", "word"),
-    ("from_word", "path"), ("from_word", "str"), ("from_none", "closure"), ("supports", "shapes"), ("supports", "badshape"), ("supports", "dblprefix"), ("supports", "anybad"), ("::map", "str"), ("::default", "word"), ("bogus", "words"),
+    ("from_word", "path"), ("from_word", "str"), ("from_none", "closure"), ("supports", "shapes"), ("supports", "badshape"), ("supports", "dblprefix"), ("supports", "anybad"), ("bound", "preds"), ("bound", "str"), ("::map", "str"), ("::default", "word"), ("bogus", "words"),
     ("bogus", "word"), ("@bare", ""), ("@nv", ""), ("@lit", ""), ("@junk", ""),
 ];
 
@@ -263,12 +268,12 @@ pub fn record(rng: &mut Rng, n: usize) -> Vec<Value> {
         let derive = *rng.pick(&DERIVES);
         let shape = if rng.chance(1, 40) { "union" } else { *rng.pick(&SHAPES) };
         let cont = if rng.chance(1, 3) { vec![] } else { draw(rng, &CONT_ALPHA, 6, true) };
-        let fields = shape == "named" || shape.starts_with("named_attrs");
+        let v1style = if shape != "enum" { "unit" } else { *rng.pick(&["unit", "unit", "unit", "newtype", "struct", "struct", "tuple2", "tuple0", "struct0"]) };
+        let fields = shape == "named" || shape.starts_with("named_attrs") || (shape == "enum" && v1style == "struct");
         let f1 = if fields { draw(rng, &FIELD_ALPHA, 5, true) } else { vec![] };
         let f2 = if shape == "named" { draw(rng, &FIELD_ALPHA, 5, true) } else { vec![] };
         let v1 = if shape == "enum" { draw(rng, &VARIANT_ALPHA, 4, true) } else { vec![] };
         let v2 = if shape == "enum" { draw(rng, &VARIANT_ALPHA, 4, true) } else { vec![] };
-        let v1style = if shape != "enum" { "unit" } else { *rng.pick(&["unit", "unit", "unit", "newtype", "struct", "tuple2", "tuple0", "struct0"]) };
         let mut c = json!({"derive": derive, "shape": shape, "cont": cont, "f1": f1, "f2": f2, "v1": v1, "v2": v2, "v1style": v1style,
                            "f2present": !f2.is_empty(), "v2present": !v2.is_empty()});
         let split = rng.chance(1, 3);
